@@ -204,7 +204,7 @@ CHECKS = {
         ref="§4 C14"),
     "C15": dict(
         text=("Theorems (Props/C15.lean): objective_entry / objective_length (entry at each column = weight given for that "
-              "column's id, else 0), zipKeep_mem / solve_keeps / select_keeps (returned vectors become id->value dictionaries "
+              "column's id, else 0), objectives_per_request (one vector per request, request k's vector a function of request k alone) / objective_unnamed_zero, zipKeep_mem / solve_keeps / select_keeps (returned vectors become id->value dictionaries "
               "over exactly the kept columns: solve omits generated helper variables unless asked, select keeps only leaf "
               "items with only_leafs), none_gives_empty, exact_solver_valid (with C02: a point of the asserted polyhedron of a "
               "solver-safe model satisfies the model). Tie: polyhedron, objective vectors and result dictionaries of solve() / "
